@@ -197,7 +197,7 @@ def main(ctx):
     cov = ctx.coverage
     lean = ctx.lean("QG.Props.C08")
     cs = cases(ctx)
-    reals = [W.observe_run(c, o, n) for c, o, n in cs]
+    reals = [W.observe_run(c, o, n, shots=1 + (k % 3 == 2)) for k, (c, o, n) in enumerate(cs)]     # every third case runs two shots
     models = core.Driver("C08").batch([W.model_request(c, o, n) for c, o, n in cs])
     fails, mism, nontrivial, hist = [], [], set(), {}
     for (cls, ops, n), r, m in zip(cs, reals, models):
@@ -211,6 +211,9 @@ def main(ctx):
             d = "rev" if op[1] > op[2] else "fwd"
             hist[f"{op[0]}-{d}"] = hist.get(f"{op[0]}-{d}", 0) + 1
         bad = oracle(cls, ops, n, r)
+        if not bad and "err" not in r:
+            # independent of the model: every shot of a run issues the calls of the first shot (same circuit, same phases)
+            bad = W.later_shots(r)
         if bad:
             fails.append((cls, ops, n, bad))
         d = W.compare_run(r, m, cls)
